@@ -243,21 +243,27 @@ func (l *Lexer) GetString(token *Token) string {
 }
 
 func (l *Lexer) GetLineAndCol(pos int) (string, int, int) {
+	if pos >= len(l.src) {
+		// errors at the end of the input point at the last byte
+		pos = len(l.src) - 1
+	}
 	line := 1
-	col := 1
+	col := 0
 	lineStart := 0
 	inLine := false
-	for i, r := range l.src {
-		if r == '\n' {
+	// pos is a byte offset and need not be the first byte of a character, so
+	// walk bytes, not runes
+	for i := 0; i < len(l.src); i++ {
+		if i == pos {
+			inLine = true
+			col = i - lineStart
+		}
+		if l.src[i] == '\n' {
 			if inLine {
 				return l.src[lineStart:i], line, col
 			}
 			line++
 			lineStart = i + 1
-		}
-		if i == pos {
-			inLine = true
-			col = i - lineStart
 		}
 	}
 	return l.src[lineStart:], line, col
